@@ -54,6 +54,64 @@ func (c *Ctx) runCanonFirstFiles(rule string, pkgs []*packages.Package, fileOK f
 					continue
 				}
 				fobj, _ := info.Defs[fd.Name].(*types.Func)
+				// the variant with a new name: d := p.Normalize() - from there on
+				// the function works with d; a later scale-sensitive use of the raw
+				// parameter (receiver of Scale/Add/Sub/Dot/ProjectOut..., or an
+				// argument of one of them) mixes the two values
+				for _, st := range fd.Body.List {
+					as, ok := st.(*ast.AssignStmt)
+					if !ok || as.Tok != token.DEFINE || len(as.Lhs) != 1 || len(as.Rhs) != 1 {
+						continue
+					}
+					call, ok := as.Rhs[0].(*ast.CallExpr)
+					if !ok || len(call.Args) != 0 {
+						continue
+					}
+					sel, ok := call.Fun.(*ast.SelectorExpr)
+					if !ok || !canonMethods[sel.Sel.Name] {
+						continue
+					}
+					rid, ok := sel.X.(*ast.Ident)
+					if !ok || !params[info.Uses[rid]] {
+						continue
+					}
+					obj := info.Uses[rid]
+					c.analysed(objName(fobj))
+					key := objName(fobj) + " " + as.Lhs[0].(*ast.Ident).Name + " := " + obj.Name() + "." + sel.Sel.Name + "()"
+					var late token.Pos
+					ast.Inspect(fd.Body, func(n ast.Node) bool {
+						ce, ok := n.(*ast.CallExpr)
+						if !ok || ce.Pos() <= as.End() {
+							return true
+						}
+						s2, ok := ce.Fun.(*ast.SelectorExpr)
+						if !ok {
+							return true
+						}
+						switch s2.Sel.Name {
+						case "Scale", "Add", "Sub", "Dot", "ProjectOut", "Cross", "Mul", "Reflect":
+						default:
+							return true
+						}
+						uses := func(e ast.Expr) bool {
+							id, ok := ast.Unparen(e).(*ast.Ident)
+							return ok && info.Uses[id] == obj
+						}
+						hit := uses(s2.X)
+						for _, a := range ce.Args {
+							hit = hit || uses(a)
+						}
+						if hit && !late.IsValid() {
+							late = ce.Pos()
+						}
+						return true
+					})
+					if late.IsValid() {
+						c.bad(rule, key, late, "the parameter is still used raw in vector arithmetic after its canonical copy was made at "+c.pos(as.Pos())+": one part of the function works with the caller's value, another with the canonical one")
+					} else {
+						c.ok(rule, key, as.Pos(), "after the canonical copy is made the raw parameter is not used in vector arithmetic")
+					}
+				}
 				for _, st := range fd.Body.List {
 					as, ok := st.(*ast.AssignStmt)
 					if !ok || as.Tok != token.ASSIGN || len(as.Lhs) != 1 || len(as.Rhs) != 1 {
